@@ -648,3 +648,429 @@ crate::vp_harness!(movz, |s| { movw!(s, movz, Op::Movz, 64) });
 crate::vp_harness!(movz_w, |s| { movw!(s, movz_w, Op::Movz, 32) });
 crate::vp_harness!(movk, |s| { movw!(s, movk, Op::Movk, 64) });
 crate::vp_harness!(movk_w, |s| { movw!(s, movk_w, Op::Movk, 32) });
+
+// ==========================================================================================
+// pc-relative, branches (immediate forms), exceptions, barriers
+
+crate::vp_harness!(adr_imm, |s| {
+    let (d, qd) = reg(s); let imm = s.i32();
+    let mut a = AssemblerArm64::new();
+    a.adr_imm(d, imm);
+    let mut want = q_imm(Op::Adr, imm as i64); // byte offset
+    want.rd = qd;
+    chk(a, want);
+});
+crate::vp_harness!(adrp_imm, |s| {
+    let (d, qd) = reg(s); let imm = s.i32();
+    let mut a = AssemblerArm64::new();
+    a.adrp_imm(d, imm);
+    let mut want = q_imm(Op::Adrp, (imm as i64) * 4096); // operand counts 4 KiB pages
+    want.rd = qd;
+    chk(a, want);
+});
+crate::vp_harness!(bl_imm, |s| {
+    let imm26 = s.i32();
+    let mut a = AssemblerArm64::new();
+    a.bl_imm(imm26);
+    chk(a, q_imm(Op::Bl, (imm26 as i64) * 4)); // operand counts instructions
+});
+macro_rules! cbx_imm {
+    ($s:ident, $m:ident, $op:expr, $sf:expr) => {{
+        let (t, qt) = reg($s);
+        let diff = $s.i32();
+        let mut a = AssemblerArm64::new();
+        a.$m(t, diff);
+        let mut want = q_imm($op, (diff as i64) * 4); // operand counts instructions
+        want.sf = $sf;
+        want.rd = qt;
+        chk(a, want);
+    }};
+}
+crate::vp_harness!(cbz_imm, |s| { cbx_imm!(s, cbz_imm, Op::Cbz, 64) });
+crate::vp_harness!(cbz_imm_w, |s| { cbx_imm!(s, cbz_imm_w, Op::Cbz, 32) });
+crate::vp_harness!(cbnz_imm, |s| { cbx_imm!(s, cbnz_imm, Op::Cbnz, 64) });
+crate::vp_harness!(cbnz_imm_w, |s| { cbx_imm!(s, cbnz_imm_w, Op::Cbnz, 32) });
+macro_rules! br_reg {
+    ($s:ident, $m:ident, $op:expr) => {{
+        let (n, qn) = reg($s);
+        let mut a = AssemblerArm64::new();
+        a.$m(n);
+        let mut want = Insn::new($op);
+        want.rn = qn;
+        chk(a, want);
+    }};
+}
+crate::vp_harness!(b_r, |s| { br_reg!(s, b_r, Op::Br) });
+crate::vp_harness!(bl_r, |s| { br_reg!(s, bl_r, Op::Blr) });
+crate::vp_harness!(ret, |s| { br_reg!(s, ret, Op::Ret) });
+crate::vp_harness!(brk, |s| {
+    let imm16 = s.u32();
+    let mut a = AssemblerArm64::new();
+    a.brk(imm16);
+    chk(a, q_imm(Op::Brk, imm16 as i64));
+});
+crate::vp_harness!(nop, |s| {
+    let mut a = AssemblerArm64::new();
+    a.nop();
+    chk(a, q_imm(Op::Hint, 0));
+});
+crate::vp_harness!(dmb, |s| {
+    let imm = s.u32();
+    let mut a = AssemblerArm64::new();
+    a.dmb(imm);
+    chk(a, q_imm(Op::Dmb, imm as i64)); // CRm barrier option
+});
+crate::vp_harness!(dmb_ish, |s| {
+    let mut a = AssemblerArm64::new();
+    a.dmb_ish();
+    chk(a, q_imm(Op::Dmb, 0b1011));
+});
+crate::vp_harness!(dmb_ishst, |s| {
+    let mut a = AssemblerArm64::new();
+    a.dmb_ishst();
+    chk(a, q_imm(Op::Dmb, 0b1010));
+});
+
+// ==========================================================================================
+// exclusive / acquire-release / LSE atomics
+
+/// method(rs, rt, rn) of the LSE family: op<a><l> Rs, Rt, [Rn|SP]
+macro_rules! lse {
+    ($s:ident, $m:ident, $op:expr, $size:expr, $acq:expr, $rel:expr) => {{
+        let (x, qx) = reg($s);
+        let (t, qt) = reg($s);
+        let (n, qn) = reg($s);
+        let mut a = AssemblerArm64::new();
+        a.$m(x, t, n);
+        chk(a, q_atomic($op, $size, qx, qt, qn, $acq, $rel));
+    }};
+}
+crate::vp_harness!(cas, |s| { lse!(s, cas, Op::Cas, 8, false, false) });
+crate::vp_harness!(cas_w, |s| { lse!(s, cas_w, Op::Cas, 4, false, false) });
+crate::vp_harness!(casa, |s| { lse!(s, casa, Op::Cas, 8, true, false) });
+crate::vp_harness!(casa_w, |s| { lse!(s, casa_w, Op::Cas, 4, true, false) });
+crate::vp_harness!(casal, |s| { lse!(s, casal, Op::Cas, 8, true, true) });
+crate::vp_harness!(casal_w, |s| { lse!(s, casal_w, Op::Cas, 4, true, true) });
+crate::vp_harness!(casl, |s| { lse!(s, casl, Op::Cas, 8, false, true) });
+crate::vp_harness!(casl_w, |s| { lse!(s, casl_w, Op::Cas, 4, false, true) });
+crate::vp_harness!(ldadd, |s| { lse!(s, ldadd, Op::Ldadd, 8, false, false) });
+crate::vp_harness!(ldadd_w, |s| { lse!(s, ldadd_w, Op::Ldadd, 4, false, false) });
+crate::vp_harness!(ldadda, |s| { lse!(s, ldadda, Op::Ldadd, 8, true, false) });
+crate::vp_harness!(ldadda_w, |s| { lse!(s, ldadda_w, Op::Ldadd, 4, true, false) });
+crate::vp_harness!(ldaddal, |s| { lse!(s, ldaddal, Op::Ldadd, 8, true, true) });
+crate::vp_harness!(ldaddal_w, |s| { lse!(s, ldaddal_w, Op::Ldadd, 4, true, true) });
+crate::vp_harness!(ldaddl, |s| { lse!(s, ldaddl, Op::Ldadd, 8, false, true) });
+crate::vp_harness!(ldaddl_w, |s| { lse!(s, ldaddl_w, Op::Ldadd, 4, false, true) });
+crate::vp_harness!(swp, |s| { lse!(s, swp, Op::Swp, 8, false, false) });
+crate::vp_harness!(swp_w, |s| { lse!(s, swp_w, Op::Swp, 4, false, false) });
+crate::vp_harness!(swpa, |s| { lse!(s, swpa, Op::Swp, 8, true, false) });
+crate::vp_harness!(swpa_w, |s| { lse!(s, swpa_w, Op::Swp, 4, true, false) });
+crate::vp_harness!(swpal, |s| { lse!(s, swpal, Op::Swp, 8, true, true) });
+crate::vp_harness!(swpal_w, |s| { lse!(s, swpal_w, Op::Swp, 4, true, true) });
+crate::vp_harness!(swpl, |s| { lse!(s, swpl, Op::Swp, 8, false, true) });
+crate::vp_harness!(swpl_w, |s| { lse!(s, swpl_w, Op::Swp, 4, false, true) });
+// store-exclusive: method(status, src, addr) -> ST(L)XR Ws, Rt, [Rn|SP]
+crate::vp_harness!(stxr, |s| { lse!(s, stxr, Op::Stxr, 8, false, false) });
+crate::vp_harness!(stxr_w, |s| { lse!(s, stxr_w, Op::Stxr, 4, false, false) });
+crate::vp_harness!(stlxr, |s| { lse!(s, stlxr, Op::Stlxr, 8, false, false) });
+crate::vp_harness!(stlxr_w, |s| { lse!(s, stlxr_w, Op::Stlxr, 4, false, false) });
+
+/// method(rt, rn): op Rt, [Rn|SP]
+macro_rules! ordered {
+    ($s:ident, $m:ident, $op:expr, $size:expr) => {{
+        let (t, qt) = reg($s);
+        let (n, qn) = reg($s);
+        let mut a = AssemblerArm64::new();
+        a.$m(t, n);
+        chk(a, q_atomic($op, $size, R::None, qt, qn, false, false));
+    }};
+}
+crate::vp_harness!(ldar, |s| { ordered!(s, ldar, Op::Ldar, 8) });
+crate::vp_harness!(ldarb, |s| { ordered!(s, ldarb, Op::Ldar, 1) });
+crate::vp_harness!(ldarh, |s| { ordered!(s, ldarh, Op::Ldar, 2) });
+crate::vp_harness!(ldar_w, |s| { ordered!(s, ldar_w, Op::Ldar, 4) });
+crate::vp_harness!(ldaxr, |s| { ordered!(s, ldaxr, Op::Ldaxr, 8) });
+crate::vp_harness!(ldaxr_w, |s| { ordered!(s, ldaxr_w, Op::Ldaxr, 4) });
+crate::vp_harness!(ldxr, |s| { ordered!(s, ldxr, Op::Ldxr, 8) });
+crate::vp_harness!(ldxr_w, |s| { ordered!(s, ldxr_w, Op::Ldxr, 4) });
+crate::vp_harness!(stlr, |s| { ordered!(s, stlr, Op::Stlr, 8) });
+crate::vp_harness!(stlrb, |s| { ordered!(s, stlrb, Op::Stlr, 1) });
+crate::vp_harness!(stlrh, |s| { ordered!(s, stlrh, Op::Stlr, 2) });
+crate::vp_harness!(stlr_w, |s| { ordered!(s, stlr_w, Op::Stlr, 4) });
+
+// ==========================================================================================
+// load/store pair. `imm` operands are byte offsets, `imm7` operands count registers-sized slots
+// (the raw field): ldp/ldp_w/stp_post/stp_post_w take bytes; stp/stp_w/stp_pre*/ldp_post* take slots.
+
+macro_rules! pair {
+    ($s:ident, $m:ident, $op:expr, $size:expr, $scale:expr) => {{
+        let (t, qt) = reg($s);
+        let (t2, qt2) = reg($s);
+        let (n, qn) = reg($s);
+        let imm = $s.i32();
+        let mut a = AssemblerArm64::new();
+        a.$m(t, t2, n, imm);
+        chk(a, q_pair($op, $size, if $size == 8 { 64 } else { 32 }, qt, qt2, qn, (imm as i64) * $scale));
+    }};
+}
+crate::vp_harness!(ldp, |s| { pair!(s, ldp, Op::LdpOff, 8, 1) });
+crate::vp_harness!(ldp_w, |s| { pair!(s, ldp_w, Op::LdpOff, 4, 1) });
+crate::vp_harness!(ldp_post, |s| { pair!(s, ldp_post, Op::LdpPost, 8, 8) });
+crate::vp_harness!(ldp_post_w, |s| { pair!(s, ldp_post_w, Op::LdpPost, 4, 4) });
+crate::vp_harness!(stp, |s| { pair!(s, stp, Op::StpOff, 8, 8) });
+crate::vp_harness!(stp_w, |s| { pair!(s, stp_w, Op::StpOff, 4, 4) });
+crate::vp_harness!(stp_post, |s| { pair!(s, stp_post, Op::StpPost, 8, 1) });
+crate::vp_harness!(stp_post_w, |s| { pair!(s, stp_post_w, Op::StpPost, 4, 1) });
+crate::vp_harness!(stp_pre, |s| { pair!(s, stp_pre, Op::StpPre, 8, 8) });
+crate::vp_harness!(stp_pre_w, |s| { pair!(s, stp_pre_w, Op::StpPre, 4, 4) });
+
+// ==========================================================================================
+// load/store register: unsigned scaled offset (operand = byte offset)
+
+macro_rules! mem_uimm {
+    ($s:ident, $m:ident, $op:expr, $size:expr, $sf:expr) => {{
+        let (t, qt) = reg($s);
+        let (n, qn) = reg($s);
+        let imm = $s.u32();
+        let mut a = AssemblerArm64::new();
+        a.$m(t, n, imm);
+        chk(a, q_mem($op, $size, $sf, qt, qn, imm as i64));
+    }};
+}
+macro_rules! mem_uimm_v {
+    ($s:ident, $m:ident, $op:expr, $size:expr) => {{
+        let (t, qt) = neon($s);
+        let (n, qn) = reg($s);
+        let imm = $s.u32();
+        let mut a = AssemblerArm64::new();
+        a.$m(t, n, imm);
+        chk(a, q_mem($op, $size, 0, qt, qn, imm as i64));
+    }};
+}
+crate::vp_harness!(ldr, |s| {
+    let (t, qt) = reg(s); let (n, qn) = reg(s); let off = s.i64();
+    let mut a = AssemblerArm64::new();
+    a.ldr(t, MemOperand::new(n, off));
+    chk(a, q_mem(Op::LdrOff, 8, 64, qt, qn, off));
+});
+crate::vp_harness!(ldr_imm_x, |s| { mem_uimm!(s, ldr_imm_x, Op::LdrOff, 8, 64) });
+crate::vp_harness!(ldr_imm_w, |s| { mem_uimm!(s, ldr_imm_w, Op::LdrOff, 4, 32) });
+crate::vp_harness!(ldrh_imm, |s| { mem_uimm!(s, ldrh_imm, Op::LdrOff, 2, 32) });
+crate::vp_harness!(ldrb_imm, |s| { mem_uimm!(s, ldrb_imm, Op::LdrOff, 1, 32) });
+crate::vp_harness!(ldr_imm_d, |s| { mem_uimm_v!(s, ldr_imm_d, Op::LdrOff, 8) });
+crate::vp_harness!(ldr_imm_s, |s| { mem_uimm_v!(s, ldr_imm_s, Op::LdrOff, 4) });
+crate::vp_harness!(str_imm, |s| { mem_uimm!(s, str_imm, Op::StrOff, 8, 64) });
+crate::vp_harness!(str_imm_x, |s| { mem_uimm!(s, str_imm_x, Op::StrOff, 8, 64) });
+crate::vp_harness!(str_imm_w, |s| { mem_uimm!(s, str_imm_w, Op::StrOff, 4, 32) });
+crate::vp_harness!(strh_imm, |s| { mem_uimm!(s, strh_imm, Op::StrOff, 2, 32) });
+crate::vp_harness!(strb_imm, |s| { mem_uimm!(s, strb_imm, Op::StrOff, 1, 32) });
+crate::vp_harness!(str_imm_d, |s| { mem_uimm_v!(s, str_imm_d, Op::StrOff, 8) });
+crate::vp_harness!(str_imm_s, |s| { mem_uimm_v!(s, str_imm_s, Op::StrOff, 4) });
+
+// unscaled signed offset
+macro_rules! mem_simm {
+    ($s:ident, $m:ident, $op:expr, $size:expr, $sf:expr) => {{
+        let (t, qt) = reg($s);
+        let (n, qn) = reg($s);
+        let imm = $s.i32();
+        let mut a = AssemblerArm64::new();
+        a.$m(t, n, imm);
+        chk(a, q_mem($op, $size, $sf, qt, qn, imm as i64));
+    }};
+}
+macro_rules! mem_simm_v {
+    ($s:ident, $m:ident, $op:expr, $size:expr) => {{
+        let (t, qt) = neon($s);
+        let (n, qn) = reg($s);
+        let imm = $s.i32();
+        let mut a = AssemblerArm64::new();
+        a.$m(t, n, imm);
+        chk(a, q_mem($op, $size, 0, qt, qn, imm as i64));
+    }};
+}
+crate::vp_harness!(ldur, |s| { mem_simm!(s, ldur, Op::Ldur, 8, 64) });
+crate::vp_harness!(ldur_w, |s| { mem_simm!(s, ldur_w, Op::Ldur, 4, 32) });
+crate::vp_harness!(ldurh, |s| { mem_simm!(s, ldurh, Op::Ldur, 2, 32) });
+crate::vp_harness!(ldurb, |s| { mem_simm!(s, ldurb, Op::Ldur, 1, 32) });
+crate::vp_harness!(ldur_d, |s| { mem_simm_v!(s, ldur_d, Op::Ldur, 8) });
+crate::vp_harness!(ldur_s, |s| { mem_simm_v!(s, ldur_s, Op::Ldur, 4) });
+crate::vp_harness!(stur, |s| { mem_simm!(s, stur, Op::Stur, 8, 64) });
+crate::vp_harness!(stur_w, |s| { mem_simm!(s, stur_w, Op::Stur, 4, 32) });
+crate::vp_harness!(sturh, |s| { mem_simm!(s, sturh, Op::Stur, 2, 32) });
+crate::vp_harness!(sturb, |s| { mem_simm!(s, sturb, Op::Stur, 1, 32) });
+crate::vp_harness!(stur_d, |s| { mem_simm_v!(s, stur_d, Op::Stur, 8) });
+crate::vp_harness!(stur_s, |s| { mem_simm_v!(s, stur_s, Op::Stur, 4) });
+
+// register offset: method(rt, rn, rm, extend, amount) -> op Rt, [Rn|SP, Rm, <extend> #amount]
+macro_rules! mem_reg {
+    ($s:ident, $m:ident, $op:expr, $size:expr, $sf:expr) => {{
+        let (t, qt) = reg($s);
+        let (n, qn) = reg($s);
+        let (m, qm) = reg($s);
+        let (ex, _, qe) = extend($s, 64);
+        let amount = $s.u32();
+        let mut a = AssemblerArm64::new();
+        a.$m(t, n, m, ex, amount);
+        let mut want = q_memreg($op, $size, $sf, qt, qn, qm, qe, 0);
+        want.imm2 = amount as i64;
+        chk(a, want);
+    }};
+}
+macro_rules! mem_reg_v {
+    ($s:ident, $m:ident, $op:expr, $size:expr) => {{
+        let (t, qt) = neon($s);
+        let (n, qn) = reg($s);
+        let (m, qm) = reg($s);
+        let (ex, _, qe) = extend($s, 64);
+        let amount = $s.u32();
+        let mut a = AssemblerArm64::new();
+        a.$m(t, n, m, ex, amount);
+        let mut want = q_memreg($op, $size, 0, qt, qn, qm, qe, 0);
+        want.imm2 = amount as i64;
+        chk(a, want);
+    }};
+}
+crate::vp_harness!(ldr_reg, |s| { mem_reg!(s, ldr_reg, Op::LdrReg, 8, 64) });
+crate::vp_harness!(ldr_reg_w, |s| { mem_reg!(s, ldr_reg_w, Op::LdrReg, 4, 32) });
+crate::vp_harness!(ldrh_reg, |s| { mem_reg!(s, ldrh_reg, Op::LdrReg, 2, 32) });
+crate::vp_harness!(ldrb_reg, |s| { mem_reg!(s, ldrb_reg, Op::LdrReg, 1, 32) });
+crate::vp_harness!(ldr_reg_d, |s| { mem_reg_v!(s, ldr_reg_d, Op::LdrReg, 8) });
+crate::vp_harness!(ldr_reg_s, |s| { mem_reg_v!(s, ldr_reg_s, Op::LdrReg, 4) });
+crate::vp_harness!(str_reg, |s| { mem_reg!(s, str_reg, Op::StrReg, 8, 64) });
+crate::vp_harness!(str_reg_w, |s| { mem_reg!(s, str_reg_w, Op::StrReg, 4, 32) });
+crate::vp_harness!(strh_reg, |s| { mem_reg!(s, strh_reg, Op::StrReg, 2, 32) });
+crate::vp_harness!(strb_reg, |s| { mem_reg!(s, strb_reg, Op::StrReg, 1, 32) });
+crate::vp_harness!(str_reg_d, |s| { mem_reg_v!(s, str_reg_d, Op::StrReg, 8) });
+crate::vp_harness!(str_reg_s, |s| { mem_reg_v!(s, str_reg_s, Op::StrReg, 4) });
+
+// ==========================================================================================
+// scalar floating point
+
+macro_rules! fp3 {
+    ($s:ident, $m:ident, $op:expr, $size:expr) => {{
+        let (d, qd) = neon($s);
+        let (n, qn) = neon($s);
+        let (m, qm) = neon($s);
+        let mut a = AssemblerArm64::new();
+        a.$m(d, n, m);
+        chk(a, q_fp($op, $size, qd, qn, qm));
+    }};
+}
+macro_rules! fp2 {
+    ($s:ident, $m:ident, $op:expr, $size:expr) => {{
+        let (d, qd) = neon($s);
+        let (n, qn) = neon($s);
+        let mut a = AssemblerArm64::new();
+        a.$m(d, n);
+        chk(a, q_fp($op, $size, qd, qn, R::None));
+    }};
+}
+macro_rules! fpcmp {
+    ($s:ident, $m:ident, $op:expr, $size:expr) => {{
+        let (n, qn) = neon($s);
+        let (m, qm) = neon($s);
+        let mut a = AssemblerArm64::new();
+        a.$m(n, m);
+        chk(a, q_fp($op, $size, R::None, qn, qm));
+    }};
+}
+crate::vp_harness!(fadd_s, |s| { fp3!(s, fadd_s, Op::Fadd, 4) });
+crate::vp_harness!(fadd_d, |s| { fp3!(s, fadd_d, Op::Fadd, 8) });
+crate::vp_harness!(fsub_s, |s| { fp3!(s, fsub_s, Op::Fsub, 4) });
+crate::vp_harness!(fsub_d, |s| { fp3!(s, fsub_d, Op::Fsub, 8) });
+crate::vp_harness!(fmul_s, |s| { fp3!(s, fmul_s, Op::Fmul, 4) });
+crate::vp_harness!(fmul_d, |s| { fp3!(s, fmul_d, Op::Fmul, 8) });
+crate::vp_harness!(fdiv_s, |s| { fp3!(s, fdiv_s, Op::Fdiv, 4) });
+crate::vp_harness!(fdiv_d, |s| { fp3!(s, fdiv_d, Op::Fdiv, 8) });
+crate::vp_harness!(fcmp_s, |s| { fpcmp!(s, fcmp_s, Op::Fcmp, 4) });
+crate::vp_harness!(fcmp_d, |s| { fpcmp!(s, fcmp_d, Op::Fcmp, 8) });
+crate::vp_harness!(fcmpe_s, |s| { fpcmp!(s, fcmpe_s, Op::Fcmpe, 4) });
+crate::vp_harness!(fcmpe_d, |s| { fpcmp!(s, fcmpe_d, Op::Fcmpe, 8) });
+crate::vp_harness!(fmov_s, |s| { fp2!(s, fmov_s, Op::Fmov, 4) });
+crate::vp_harness!(fmov_d, |s| { fp2!(s, fmov_d, Op::Fmov, 8) });
+crate::vp_harness!(fabs_s, |s| { fp2!(s, fabs_s, Op::Fabs, 4) });
+crate::vp_harness!(fabs_d, |s| { fp2!(s, fabs_d, Op::Fabs, 8) });
+crate::vp_harness!(fneg_s, |s| { fp2!(s, fneg_s, Op::Fneg, 4) });
+crate::vp_harness!(fneg_d, |s| { fp2!(s, fneg_d, Op::Fneg, 8) });
+crate::vp_harness!(fsqrt_s, |s| { fp2!(s, fsqrt_s, Op::Fsqrt, 4) });
+crate::vp_harness!(fsqrt_d, |s| { fp2!(s, fsqrt_d, Op::Fsqrt, 8) });
+crate::vp_harness!(frintn_s, |s| { fp2!(s, frintn_s, Op::Frintn, 4) });
+crate::vp_harness!(frintn_d, |s| { fp2!(s, frintn_d, Op::Frintn, 8) });
+crate::vp_harness!(frintp_s, |s| { fp2!(s, frintp_s, Op::Frintp, 4) });
+crate::vp_harness!(frintp_d, |s| { fp2!(s, frintp_d, Op::Frintp, 8) });
+crate::vp_harness!(frintm_s, |s| { fp2!(s, frintm_s, Op::Frintm, 4) });
+crate::vp_harness!(frintm_d, |s| { fp2!(s, frintm_d, Op::Frintm, 8) });
+crate::vp_harness!(frintz_s, |s| { fp2!(s, frintz_s, Op::Frintz, 4) });
+crate::vp_harness!(frintz_d, |s| { fp2!(s, frintz_d, Op::Frintz, 8) });
+crate::vp_harness!(frinta_s, |s| { fp2!(s, frinta_s, Op::Frinta, 4) });
+crate::vp_harness!(frinta_d, |s| { fp2!(s, frinta_d, Op::Frinta, 8) });
+// fcvt_<dst><src>: fcvt_ds = FCVT Dd, Sn (single -> double); fcvt_sd = FCVT Sd, Dn
+crate::vp_harness!(fcvt_ds, |s| {
+    let (d, qd) = neon(s); let (n, qn) = neon(s);
+    let mut a = AssemblerArm64::new();
+    a.fcvt_ds(d, n);
+    let mut want = q_fp(Op::Fcvt, 4, qd, qn, R::None);
+    want.imm2 = 8;
+    chk(a, want);
+});
+crate::vp_harness!(fcvt_sd, |s| {
+    let (d, qd) = neon(s); let (n, qn) = neon(s);
+    let mut a = AssemblerArm64::new();
+    a.fcvt_sd(d, n);
+    let mut want = q_fp(Op::Fcvt, 8, qd, qn, R::None);
+    want.imm2 = 4;
+    chk(a, want);
+});
+/// method(rd: gpr, rn: fpr)
+macro_rules! fp_to_int {
+    ($s:ident, $m:ident, $op:expr, $sf:expr, $size:expr) => {{
+        let (d, qd) = reg($s);
+        let (n, qn) = neon($s);
+        let mut a = AssemblerArm64::new();
+        a.$m(d, n);
+        chk(a, q_fpint($op, $sf, $size, qd, qn));
+    }};
+}
+/// method(rd: fpr, rn: gpr)
+macro_rules! int_to_fp {
+    ($s:ident, $m:ident, $op:expr, $sf:expr, $size:expr) => {{
+        let (d, qd) = neon($s);
+        let (n, qn) = reg($s);
+        let mut a = AssemblerArm64::new();
+        a.$m(d, n);
+        chk(a, q_fpint($op, $sf, $size, qd, qn));
+    }};
+}
+crate::vp_harness!(fcvtzs_d, |s| { fp_to_int!(s, fcvtzs_d, Op::Fcvtzs, 64, 8) });
+crate::vp_harness!(fcvtzs_s, |s| { fp_to_int!(s, fcvtzs_s, Op::Fcvtzs, 64, 4) });
+crate::vp_harness!(fcvtzs_wd, |s| { fp_to_int!(s, fcvtzs_wd, Op::Fcvtzs, 32, 8) });
+crate::vp_harness!(fcvtzs_ws, |s| { fp_to_int!(s, fcvtzs_ws, Op::Fcvtzs, 32, 4) });
+crate::vp_harness!(fmov_sf_d, |s| { fp_to_int!(s, fmov_sf_d, Op::FmovToGpr, 64, 8) });
+crate::vp_harness!(fmov_sf_s, |s| { fp_to_int!(s, fmov_sf_s, Op::FmovToGpr, 32, 4) });
+crate::vp_harness!(fmov_fs_d, |s| { int_to_fp!(s, fmov_fs_d, Op::FmovToFpr, 64, 8) });
+crate::vp_harness!(fmov_fs_s, |s| { int_to_fp!(s, fmov_fs_s, Op::FmovToFpr, 32, 4) });
+crate::vp_harness!(scvtf_si_dw, |s| { int_to_fp!(s, scvtf_si_dw, Op::Scvtf, 32, 8) });
+crate::vp_harness!(scvtf_si_dx, |s| { int_to_fp!(s, scvtf_si_dx, Op::Scvtf, 64, 8) });
+crate::vp_harness!(scvtf_si_sw, |s| { int_to_fp!(s, scvtf_si_sw, Op::Scvtf, 32, 4) });
+crate::vp_harness!(scvtf_si_sx, |s| { int_to_fp!(s, scvtf_si_sx, Op::Scvtf, 64, 4) });
+
+// ==========================================================================================
+// Advanced SIMD: method(q, size, rd, rn) with the raw Q and size fields as operands
+
+macro_rules! simd2 {
+    ($s:ident, $m:ident, $op:expr) => {{
+        let q = $s.u32();
+        let size = $s.u32();
+        let (d, qd) = neon($s);
+        let (n, qn) = neon($s);
+        let mut a = AssemblerArm64::new();
+        a.$m(q, size, d, n);
+        let mut want = q_fp($op, 0, qd, qn, R::None);
+        // Q is one bit, size two bits: anything else must be refused
+        want.opt = if q < 2 { q as u8 } else { 255 };
+        want.size = if size < 4 { 1u8 << size } else { 255 };
+        chk(a, want);
+    }};
+}
+crate::vp_harness!(cnt, |s| { simd2!(s, cnt, Op::Cnt) });
+crate::vp_harness!(addv, |s| { simd2!(s, addv, Op::Addv) });
